@@ -151,6 +151,8 @@ def main() -> int:
     # functions whose contracts belong to another property but on which this property's statement depends
     for dep in cfg.get("depends", []):
         for k2 in expand_keys(repo, reg, dep):
+            if any(x in k2 for x in cfg.get("depends_exclude", [])):
+                continue
             if k2 not in keys:
                 keys.append(k2)
     if a.only:
@@ -473,4 +475,14 @@ def main() -> int:
 
 
 if __name__ == "__main__":
-    sys.exit(main())
+    try:
+        rc = main()
+    except SystemExit:
+        raise
+    except BaseException as e:  # a crash of the checker is a fault (exit 3), never a verdict -- Python's default status for a traceback is 1
+        import traceback
+
+        traceback.print_exc()
+        print(f"CHECKER-FAULT: {type(e).__name__}: {e}")
+        rc = 3
+    sys.exit(rc)
